@@ -246,7 +246,12 @@ def observed_fields(a) -> dict:
     }
 
 
-def diff_fields(exp: dict, obs: dict) -> Dict[str, Any]:
+def diff_fields(exp: dict, obs: dict, strict: bool = False) -> Dict[str, Any]:
+    """strict: an integer-valued and a float-valued shift (16 vs 16.0) are different values (Python's == says equal);
+    used where the statement is about the text a result carries, not only about its mass"""
+    if strict:
+        return {k: {'expected': exp.get(k), 'observed': obs.get(k)} for k in exp
+                if repr(exp.get(k)) != repr(obs.get(k))}
     return {k: {'expected': exp.get(k), 'observed': obs.get(k)} for k in exp if exp.get(k) != obs.get(k)}
 
 
